@@ -79,6 +79,8 @@ def check_unit(ctx, drv, pending, d, process, sensor, pts, exe, cfgdesc):
     case0 = dict(cfgdesc)
     if not layout_check(ctx, d, outs[0], case0):
         return
+    for problem in cppgen.const_read_problems(outs[0], d, kind):
+        ctx.fail("cpp-const-accessor", "generated C++: " + problem, case0)
     # the configuration the header carries is the configuration that was asked for, exactly
     want_cfg = {"config.max_dt_sec": float(cfgdesc["max_dt_sec"]), "config.innovation_filtering": float(cfgdesc["innovation_filtering"] or 0.0)}
     for k, v in want_cfg.items():
@@ -212,8 +214,19 @@ def units(ctx):
                                    n_sensors=nsen, depth=2, transcend=(rep % 4 == 3) or (rep == 1 and (nc, nk) == (2, 1)))
             if rep == 0 and (nc, nk) == (2, 0):
                 d = gen.paired_powers_definition(ctx.rng)      # statements that differ only by -1 / -2
+            if rep == 1 and (nc, nk) == (2, 0):
+                d = gen.many_temporaries_definition(ctx.rng, n=6)   # generated functions with more than ten CSE temporaries
+                d._force_cse = True
             if d.transcend and not any_inverse:
                 gen.force_inverse_composition(ctx.rng, d); any_inverse = True
+                gen.force_sign_sensitive(ctx.rng, d)
+            if nc and rep % 2 == 0 and not d.transcend:
+                # state i' = ... + control i with NO dt factor and no other occurrence of that control (same sorted index on both
+                # sides): the control-Jacobian entry (i, i) is exactly the constant 1
+                Ls = sorted(d.state, key=lambda x: x.name); Lc = sorted(d.control, key=lambda x: x.name)
+                d.state_model[Ls[0]] = sympy.sympify(d.state_model[Ls[0]]).xreplace({Lc[0]: sympy.Integer(0)}) + Lc[0]
+                if not any(Lc[0] in sympy.sympify(e).free_symbols for e in d.state_model.values()):
+                    d.state_model[Ls[0]] = d.state_model[Ls[0]] + Lc[0]
             if nsen and rep % 2 == 1:
                 gen.unsort_readings(d)
             out.append(d)
@@ -230,7 +243,7 @@ def run(ctx):
         pts = [gen.gen_point(ctx.rng, d) for _ in range(3 if ctx.quick else 8)]
         cal = pts[0]["cal"]
         pts = [dict(p, cal=cal) for p in pts]
-        cse = True if d.transcend else ctx.rng.random() < 0.6   # simplification only runs with CSE on
+        cse = True if (d.transcend or getattr(d, "_force_cse", False)) else ctx.rng.random() < 0.6   # simplification only runs with CSE on
         max_dt = ctx.rng.choice([0.1, 0.05, 0.0123456789, 1.0 / 3.0, 2.5e-6])
         filt = ctx.rng.choice([5.0, None, 1.0 / 3.0, 2.125])
         for kind in ("ekf", "model"):
@@ -240,6 +253,9 @@ def run(ctx):
                        "max_dt_sec": max_dt, "innovation_filtering": filt}
             try:
                 variant = {"config_as_dict": ctx.rng.random() < 0.4, "noise_keys": "symbol" if ctx.rng.random() < 0.4 else "same"}
+                if i % 3 == 1:
+                    # the model's symbols carry a sympy assumption (declared real): they are still the model's symbols
+                    variant["symbol_assumptions"] = {"real": True}     # (every value the check feeds in is real)
                 cfgdesc["entry_variant"] = dict(variant)
                 g = cppgen.generate(dd, process, sensor, cal, ctx.scratch, f"u{i}{kind[0]}", cse=cse, kind=kind, rng=ctx.rng,
                                     container=ctx.rng.choice(["set", "list"]), max_dt=max_dt, filtering=filt, **variant)
